@@ -816,6 +816,200 @@ theorem doq_no_response_counterexample :
 example : serverWire .doq {} exBlockedG exBlockedR true = [.srvServfail] ∧
     serverWire .dnscrypt {} exBlockedG exBlockedR true = [.srvServfail] := by decide
 
+/-! ## Rule texts: what reaches the engine (fourth deepening)
+
+"Matches a blocked-name rule" is a statement about the rule *as configured*.  The access package rewrites
+every rule text before the engine sees it. -/
+
+/-- **lower_rule_keeps_regex.** For every rule whose pattern is a regular expression — optional `@@`, `/`,
+any body (also one with `/` or upper-case escapes inside), `/`, options without a `/` — the text that
+reaches the engine has the regular expression exactly as configured; only the options are lower-cased. -/
+theorem lower_rule_keeps_regex (allow : Bool) (body opts : List Char) (hopts : '/' ∉ opts)
+    (htrim : trimSpaceL (regexRuleText allow body opts) = regexRuleText allow body opts) :
+    lowerRuleL (regexRuleText allow body opts) = regexRuleText allow body (lowerL opts) := by
+  unfold lowerRuleL
+  simp only [htrim]
+  cases allow <;> simp [regexRuleText, stripAllow, splitLastSlash_append body opts hopts]
+
+example : trimSpaceL (regexRuleText true "^\\D+$".toList "$DNSTYPE=A".toList) = regexRuleText true "^\\D+$".toList "$DNSTYPE=A".toList ∧
+    String.ofList (lowerRuleL "@@/^\\D+$/$DNSTYPE=A".toList) = "@@/^\\D+$/$dnstype=a" := by decide
+
+/-- **lower_rule_plain.** Every other rule (hosts-style names, `||domain^` patterns, comments) is
+lower-cased as a whole, as before the repair. -/
+theorem lower_rule_plain (t : List Char) (h : ∀ r, (stripAllow (trimSpaceL t)).2 ≠ '/' :: r) :
+    lowerRuleL t = lowerL (trimSpaceL t) := by
+  unfold lowerRuleL
+  show (match (stripAllow (trimSpaceL t)).2 with
+    | '/' :: rest =>
+      match splitLastSlash rest with
+      | some ab => (stripAllow (trimSpaceL t)).1 ++ '/' :: ab.1 ++ lowerL ab.2
+      | none => lowerL (trimSpaceL t)
+    | _ => lowerL (trimSpaceL t)) = _
+  generalize hq : (stripAllow (trimSpaceL t)).2 = q at h
+  cases q with
+  | nil => rfl
+  | cons c r =>
+    by_cases hc : c = '/'
+    · exact absurd (by rw [hc]) (h r)
+    · simp
+
+/-- Non-vacuity: a domain rule in upper case is no regular expression and is lower-cased; a pattern that
+only starts with a slash likewise. -/
+example : (∀ r, (stripAllow (trimSpaceL "||Example.ORG^".toList)).2 ≠ '/' :: r) ∧
+    String.ofList (lowerRuleL " ||Example.ORG^ ".toList) = "||example.org^" ∧ String.ofList (lowerRuleL "/Path".toList) = "/path" := by
+  refine ⟨fun r h => ?_, by decide, by decide⟩
+  have e : (stripAllow (trimSpaceL "||Example.ORG^".toList)).2 = "||Example.ORG^".toList := by decide
+  rw [e] at h
+  cases h
+
+/-- **regex_rule_reaches_engine_as_written.** Whatever the engine does with a text: for an option-free
+regular-expression rule it does it with the configured text. -/
+theorem regex_rule_reaches_engine_as_written {α : Type} (engine : List Char → α) (allow : Bool) (body : List Char)
+    (htrim : trimSpaceL (regexRuleText allow body []) = regexRuleText allow body []) :
+    engine (lowerRuleL (regexRuleText allow body [])) = engine (regexRuleText allow body []) := by
+  rw [lower_rule_keeps_regex allow body [] (by simp) htrim]; rfl
+
+example : trimSpaceL (regexRuleText false "^\\D+\\.t$".toList []) = regexRuleText false "^\\D+\\.t$".toList [] ∧
+    String.ofList (regexRuleText false "^\\D+\\.t$".toList []) = "/^\\D+\\.t$/" := by decide
+
+/-- **pre_fix_regex_rule_counterexample.** The code before the repair (`strings.ToLower` of the whole
+text): `/^\\D+\\.t$/` reached the engine as `/^\\d+\\.t$/`, so `ab.t`, which the configured rule matches, was
+not rejected — and `12.t`, which no rule matches, was (second example below). -/
+theorem pre_fix_regex_rule_counterexample :
+    ¬ (∀ t h : List Char, rxRuleBlocksPreFix t h = rxTextBlocks t h) := by
+  intro h
+  have := h "/^\\D+\\.t$/".toList "ab.t".toList
+  revert this
+  decide
+
+example : rxRuleBlocksPreFix "/^\\D+\\.t$/".toList "ab.t".toList = false ∧ rxRuleBlocksPreFix "/^\\D+\\.t$/".toList "12.t".toList = true ∧
+    rxRuleBlocks "/^\\D+\\.t$/".toList "ab.t".toList = true ∧ rxRuleBlocks "/^\\D+\\.t$/".toList "12.t".toList = false := by decide
+
+
+/-- **rx_match_iff_spec.** The executable matcher of the regular-expression fragment equals the declarative
+"there is a way to cut the name into blocks" reading. -/
+theorem rx_match_iff_spec (items : List RxItem) (h : List Char) : rxMatch items h = true ↔ RxMatches items h := by
+  induction h generalizing items with
+  | nil =>
+    cases items with
+    | nil => exact ⟨fun _ => .nil, fun _ => rfl⟩
+    | cons it its => exact ⟨fun e => by simp [rxMatch] at e, fun e => by cases e⟩
+  | cons c h ih =>
+    cases items with
+    | nil => exact ⟨fun e => by simp [rxMatch] at e, fun e => by cases e⟩
+    | cons it its =>
+      constructor
+      · intro e
+        simp only [rxMatch, Bool.and_eq_true, Bool.or_eq_true] at e
+        rcases e with ⟨ha, e | ⟨hp, e⟩⟩
+        · exact .one it its c h ha ((ih its).1 e)
+        · exact .more it its c h hp ha ((ih (it :: its)).1 e)
+      · intro e
+        simp only [rxMatch, Bool.and_eq_true, Bool.or_eq_true]
+        cases e with
+        | one _ _ _ _ ha e => exact ⟨ha, Or.inl ((ih its).2 e)⟩
+        | more _ _ _ _ hp ha e => exact ⟨ha, Or.inr ⟨hp, (ih (it :: its)).2 e⟩⟩
+
+example : RxMatches [⟨.esc 'D', true⟩, ⟨.esc '.', false⟩, ⟨.lit 'T', false⟩] "ab.t".toList := by
+  rw [← rx_match_iff_spec]; decide
+
+/-! ## The global settings as written in the configuration file (fourth deepening) -/
+
+/-- **yaml_entry_covers_iff.** The prefix that `netutil.Prefix.UnmarshalText` makes of an entry of
+`blocked_client_subnets` covers exactly what the entry says: a bare address that one client, `addr/len`
+the clients that agree with `addr` on the leading `len` bits (the address need not be masked). -/
+theorem yaml_entry_covers_iff (y : YamlNet) (p : Prefix) (h : y.toPrefix = some p) (a : Addr) :
+    p.contains a = true ↔ YamlCovers y a := by
+  unfold YamlNet.toPrefix at h
+  unfold YamlCovers
+  cases hb : y.bits with
+  | none =>
+    simp only [hb, Option.some.injEq] at h
+    subst h
+    cases a with
+    | mk a4 av =>
+      by_cases h4 : y.is4 = a4
+      · subst h4
+        simp only [Prefix.contains, Nat.sub_self, Nat.shiftRight_zero, beq_self_eq_true, Bool.true_and, beq_iff_eq,
+          Addr.mk.injEq, true_and]
+      · have h4' : ¬ a4 = y.is4 := fun e => h4 e.symm
+        simp [Prefix.contains, h4, h4']
+  | some b =>
+    simp only [hb] at h
+    split at h
+    · simp only [Option.some.injEq] at h
+      subst h
+      exact prefix_contains_bits _ a
+    · cases h
+
+/-- **yaml_nets_rejected_iff.** The program refuses to start exactly when some entry has a prefix length
+beyond the width of its family (within the modelled shapes: well-formed addresses). -/
+theorem yaml_nets_rejected_iff (ys : List YamlNet) :
+    yamlNets ys = none ↔ ∃ y ∈ ys, ∃ b, y.bits = some b ∧ width y.is4 < b := by
+  induction ys with
+  | nil => simp [yamlNets]
+  | cons y ys ih =>
+    unfold yamlNets
+    cases hp : y.toPrefix with
+    | none =>
+      simp only [List.mem_cons, exists_eq_or_imp, true_iff]
+      left
+      unfold YamlNet.toPrefix at hp
+      cases hb : y.bits with
+      | none => simp [hb] at hp
+      | some b =>
+        simp only [hb] at hp
+        split at hp
+        · cases hp
+        · exact ⟨b, rfl, by omega⟩
+    | some p =>
+      have hno : ¬ ∃ b, y.bits = some b ∧ width y.is4 < b := by
+        rintro ⟨b, hb, hw⟩
+        unfold YamlNet.toPrefix at hp
+        simp only [hb] at hp
+        split at hp
+        · omega
+        · cases hp
+      cases hn : yamlNets ys with
+      | none => simp [List.mem_cons, ih.1 hn]
+      | some ps =>
+        simp only [List.mem_cons, exists_eq_or_imp, hno, false_or, false_iff, reduceCtorEq]
+        intro hex
+        rw [ih.2 hex] at hn
+        cases hn
+
+/-- **yaml_global_blocks_iff.** From the file to the verdict: the access manager built from the entries
+blocks a client address (zone or not) iff some entry, read as written, covers it. -/
+theorem yaml_global_blocks_iff (ys : List YamlNet) (ps : List Prefix) (h : yamlNets ys = some ps) (eng : Eng) (z : ZAddr) :
+    ({ nets := ps, eng := eng } : Global).isBlockedIPZ z = true ↔ ∃ y ∈ ys, YamlCovers y z.addr := by
+  induction ys generalizing ps with
+  | nil =>
+    simp only [yamlNets, Option.some.injEq] at h
+    subst h
+    simp [Global.isBlockedIPZ, matchNetsZ]
+  | cons y ys ih =>
+    unfold yamlNets at h
+    cases hp : y.toPrefix with
+    | none => simp [hp] at h
+    | some p =>
+      cases hn : yamlNets ys with
+      | none => simp [hp, hn] at h
+      | some qs =>
+        simp only [hp, hn, Option.some.injEq] at h
+        subst h
+        have := ih qs hn
+        simp only [Global.isBlockedIPZ, matchNetsZ, List.any_cons, Bool.or_eq_true, List.mem_cons, exists_eq_or_imp] at this ⊢
+        rw [this]
+        have hc : p.containsZ z.withoutZone = true ↔ YamlCovers y z.addr := by
+          simp only [Prefix.containsZ, ZAddr.withoutZone, Bool.not_false, Bool.true_and]
+          exact yaml_entry_covers_iff y p hp z.addr
+        rw [hc]
+
+example : yamlNets [⟨true, 0x01020300, some 8⟩, ⟨false, 0xfe800000000000000000000000000001, none⟩] =
+      some [⟨true, 0x01020300, 8⟩, ⟨false, 0xfe800000000000000000000000000001, 128⟩] ∧
+    yamlNets [⟨true, 0x01020300, some 33⟩] = none := by decide
+
+
 #print axioms blocked_iff
 #print axioms prefix_contains_iff
 #print axioms prefix_contains_bits
@@ -855,6 +1049,14 @@ example : serverWire .doq {} exBlockedG exBlockedR true = [.srvServfail] ∧
 #print axioms server_rejected_message_counterexample
 #print axioms doq_no_response_counterexample
 
+#print axioms lower_rule_keeps_regex
+#print axioms lower_rule_plain
+#print axioms regex_rule_reaches_engine_as_written
+#print axioms pre_fix_regex_rule_counterexample
+#print axioms rx_match_iff_spec
+#print axioms yaml_entry_covers_iff
+#print axioms yaml_nets_rejected_iff
+#print axioms yaml_global_blocks_iff
 end Agd.Access
 #print axioms Agd.Tie.TrC10.translation_complete
 #print axioms Agd.Tie.TrC10.matchASNs_spec
